@@ -314,7 +314,12 @@ def gen_fields(rng: random.Random, t: int, chans: List[int]) -> List[Tuple[str, 
         elif b'streamlocal' in name:
             f += [('str', rng.choice([b'/nonexistent/c10.sock', s()]))]
         elif b'hostkeys' in name:
-            f += [('str', String('ssh-ed25519') + String(bytes(32))) for _ in range(rng.choice([0, 1, 3]))]
+            # host key rotation: the key the client trusts (possibly several times), well-formed keys it has never
+            # seen, and junk, in any mixture
+            trusted = pair.host_key().public_data
+            f += [('str', rng.choice([trusted, trusted, String('ssh-ed25519') + String(bytes(32)),
+                                      String('ssh-ed25519') + String(bytes([rng.randrange(256)]) * 32), s()]))
+                  for _ in range(rng.choice([0, 1, 2, 3]))]
         return f
     if t in (81, 82):
         return [] if rng.random() < 0.6 else [('u32', u())]
@@ -796,7 +801,13 @@ async def packet_case(phase: str, role: str, seed: str, explicit: Optional[List[
     rng = random.Random(seed)
     pkts: List[Tuple[int, bytes]] = []
     desc = 'explicit'
-    case = await (setup_clear(role, phase) if phase in PHASES_CLEAR else setup_enc(role, phase))
+    copts: Optional[Dict[str, Any]] = None
+    if role == 'client' and phase == 'post-auth':
+        # a client that verifies host keys and has asked to be told about host key rotation: the
+        # hostkeys-00@openssh.com handler is reachable by the server
+        copts = dict(known_hosts=([pair.host_key().convert_to_public()], [], []),
+                     server_host_keys_handler=lambda added, removed, retained, revoked: None)
+    case = await (setup_clear(role, phase) if phase in PHASES_CLEAR else setup_enc(role, phase, client_opts=copts))
     try:
         if explicit is not None:
             pkts = explicit
